@@ -1269,4 +1269,39 @@ pub mod verif {
         }
         store.get_records_within_distance_range(range)
     }
+
+    /// Pass-through to `SwarmDriver::handle_local_cmd`.
+    pub fn handle_local_cmd(
+        driver: &mut SwarmDriver,
+        cmd: LocalSwarmCmd,
+    ) -> Result<(), NetworkError> {
+        driver.handle_local_cmd(cmd)
+    }
+
+    /// Read-only copy of `quotes_history` (the reference quote kept per peer).
+    pub fn quotes_history(driver: &SwarmDriver) -> Vec<(PeerId, PaymentQuote)> {
+        driver
+            .quotes_history
+            .iter()
+            .map(|(peer, quote)| (*peer, quote.clone()))
+            .collect()
+    }
+
+    /// The issues currently recorded against `peer` (Debug text of each) and whether it is
+    /// considered bad.
+    pub fn node_issues(driver: &SwarmDriver, peer: &PeerId) -> (Vec<String>, bool) {
+        match driver.bad_nodes.get(peer) {
+            Some((issues, is_bad)) => (
+                issues.iter().map(|(issue, _)| format!("{issue:?}")).collect(),
+                *is_bad,
+            ),
+            None => (vec![], false),
+        }
+    }
+
+    /// Forget the issues recorded against `peer`, so that the next issue is recorded regardless
+    /// of the ten-second rate limit of `record_node_issue`.
+    pub fn clear_node_issues(driver: &mut SwarmDriver, peer: &PeerId) {
+        let _ = driver.bad_nodes.remove(peer);
+    }
 }
